@@ -192,4 +192,19 @@ theorem W.getLost {g : Ghost} {c : Nat → Nat} (h : W g c) : W g.getLost c := b
     simp only [oc_some_self, List.count_cons_self]; omega
   · simp only [oc_some_ne hid, List.count_cons_of_ne hid]; omega
 
+/-- a position gives up its buffer without `Put`: the buffer is recorded as lost -/
+theorem W.drop {g : Ghost} {c : Nat → Nat} {o : Option Nat} (h : W g (fun id => oc o id + c id)) :
+    W (g.drop o) c := by
+  cases o with
+  | none => exact h.congr (fun id => by simp [oc_none])
+  | some j =>
+    refine ⟨h.ok, h.fresh, ?_⟩
+    intro id
+    have hb := h.bal id
+    show c id + (j :: g.lost).count id = if id ∈ owned g then 1 else 0
+    rw [← hb]
+    by_cases hid : j = id
+    · subst hid; simp only [oc_some_self, List.count_cons_self]; omega
+    · simp only [oc_some_ne hid, List.count_cons_of_ne hid]; omega
+
 end KcpVerif.Own
